@@ -96,7 +96,7 @@ def line(names, style):
 HELPERS = "def same(s, v):\n    return v == s\n\n\ndef wrap(v):\n    return v\n\n\n"
 
 
-def build_file(tests, header="from inline_snapshot import snapshot\n", needs=()):
+def build_file(tests, header="from inline_snapshot import snapshot\n", needs=(), weird=False):
     from ..gen.values import prologue_for
 
     exprs = []
@@ -106,6 +106,9 @@ def build_file(tests, header="from inline_snapshot import snapshot\n", needs=())
             exprs.append((SITES.get(n) or PLUGIN_SITES[n])[2])
     pro = prologue_for(exprs, needs).replace("from inline_snapshot import snapshot\n", "", 1)
     out = [header, "# -*- héader cömment 🐍 -*-\n", pro, "\n\n", HELPERS]
+    if weird:
+        # characters that str.splitlines() treats as line ends but the Python tokenizer does not
+        out.insert(2, "W1 = 'u2028:\u2028 u2029:\u2029 x85:\x85 x1c:\x1c x1d:\x1d x1e:\x1e'  # \x0b vt, \x1c fs\n\x0c\nW2 = 1\n\x0c\n")
     for i, (names, style) in enumerate(tests):
         out.append("def test_%d():\n%s\n\n" % (i, line(names, style)))
     return "".join(out)
@@ -200,6 +203,9 @@ def _inline_cases(tier):
     for a in names:
         for st in STYLES:
             cases.append({"names": [a], "style": st})
+    for a in names:
+        for b in names[::3]:
+            cases.append({"names": [a, b], "style": "uni", "weird": True})
     return cases
 
 
@@ -207,7 +213,7 @@ def _judge_inline(cases, F):
     from ..drivers.inline import run_inline
 
     tests = [(c["names"], c["style"]) for c in cases]
-    src = build_file(tests)
+    src = build_file(tests, weird=bool(cases[0].get("weird")))
     r = run_inline({"test_something.py": src}, F)
     n = len(cases)
     ctx = {"src": src}
@@ -249,6 +255,10 @@ def _plugin_cases(tier):
         for site in ("hasrepr", "ext"):
             cases.append({"kind": "import", "shape": shape, "names": [site, "fixl"], "F": ["create", "fix"]})
         cases.append({"kind": "import", "shape": shape, "names": ["hasrepr", "ext"], "F": ["create"]})
+    for first in ("hasrepr", "ext"):
+        for second in ("fixl", "create", "none", "fixuni"):
+            for order in ("ab", "ba"):
+                cases.append({"kind": "multifile", "names": [first, second], "order": order, "F": ["create", "fix"]})
     pairs = [["fixl", "create"], ["fixml", "trimin"], ["upd", "fixuni"], ["fixstr", "none"], ["fixd", "fixt1"], ["create", "trimb"]]
     for nl in ("\n", "\r\n", "\r"):
         for p in pairs:
@@ -277,8 +287,38 @@ def _plugin_file(c):
     return src
 
 
+def _judge_multifile(c):
+    """Two files rewritten in one session: only the file whose new code needs a name may gain the import."""
+    from ..drivers import plugin
+
+    fa, fb = ("test_a.py", "test_b.py") if c["order"] == "ab" else ("test_b.py", "test_a.py")
+    files = {fa: build_file([([c["names"][0]], "plain")], needs=["outsource"] if c["names"][0] == "ext" else []),
+             fb: build_file([([c["names"][1]], "uni")])}
+    d = plugin.mk_project(dict(files, **{"pyproject.toml": ""}))
+    try:
+        r = plugin.session(d, ["--inline-snapshot=" + ",".join(c["F"])])
+        after = plugin.listing(d, text=True)
+    finally:
+        plugin.cleanup()
+    ctx = {"src": files[fb], "after": after.get(fb, "")}
+    if plugin.internal_error(r["out"]) or r["rc"] not in (0, 1):
+        return ("internal-error", "rc=%s %s" % (r["rc"], r["out"][-700:])), ctx
+    v = check_file(files[fb], after[fb], [SITES[c["names"][1]][3]], c["F"], False)
+    if v is None:
+        allow = ["HasRepr"] if c["names"][0] == "hasrepr" else ["external"]
+        v = check_file(files[fa], after[fa], [PLUGIN_SITES[c["names"][0]][3]], c["F"], False, allow_imports=allow)
+        ctx = {"src": files[fa], "after": after[fa]}
+        if v is None and ("from inline_snapshot import %s" % allow[0]) not in after[fa]:
+            v = ("import-not-inserted-exactly-once", "missing in the file that needs it")
+    ctx["changed"] = True
+    return v, ctx
+
+
 def _judge_plugin(c):
     from ..drivers import plugin
+
+    if c["kind"] == "multifile":
+        return _judge_multifile(c)
 
     src = _plugin_file(c)
     pp = '[tool.inline-snapshot]\nformat-command="cat"\n' if c["kind"] == "fmtcmd" else ""
@@ -333,10 +373,11 @@ def _judge_plugin(c):
 
 def build(tier, seed):
     tasks = []
-    cs = _inline_cases(tier)
-    for F in _fsets(tier):
-        for i in range(0, len(cs), 20):
-            tasks.append({"inline": cs[i : i + 20], "F": F})
+    allcs = _inline_cases(tier)
+    for cs in ([c for c in allcs if not c.get("weird")], [c for c in allcs if c.get("weird")]):
+        for F in _fsets(tier):
+            for i in range(0, len(cs), 20):
+                tasks.append({"inline": cs[i : i + 20], "F": F})
     pc = _plugin_cases(tier)
     for i in range(0, len(pc), 6):
         tasks.append({"plugin": pc[i : i + 6]})
